@@ -78,6 +78,10 @@ class CWMH(ProposalBasedSampler):
     def _initialize(self):
         if isinstance(self.scale, Number):
             self.scale = np.ones(self.dim)*self.scale
+        # The component proposals are written into copies of the current point: with an
+        # integer-typed initial point every proposal would be truncated to an integer
+        if isinstance(self.current_point, np.ndarray) and not np.issubdtype(self.current_point.dtype, np.inexact):
+            self.current_point = self.current_point.astype(float)
         self._acc = [np.ones((self.dim))] # Overwrite acc from ProposalBasedSampler with list of arrays
 
         # Handling of temporary scale parameter due to possible bug in old CWMH
